@@ -478,7 +478,16 @@ pub fn gen_op(rng: &mut Rng, sh: &WorldShape, pr: &Profile) -> Op {
         OPK_REPLACE => Op::ReplaceArch { a, cap: None },
         OPK_BULK => Op::Bulk { a, n: [70u32, 130, 257, 300, 520, 1030, 2100, 4200][rng.weighted(&[6, 6, 6, 5, 4, 3, 2, 1])], p: rng.next() },
         OPK_SPAWN => Op::Spawn { c: rng.next() },
-        OPK_CLONE_FROM => Op::CloneFrom { n: rng.below(4) as u8 },
+        OPK_CLONE_FROM => {
+            if rng.chance(1, 3) {
+                Op::CloneFrom { n: rng.below(4) as u8 }
+            } else {
+                let a = if rng.chance(1, 2) { Some(rng.below(sh.narch as u64) as u8) } else { None };
+                let panic_at = if f.clone_panic && rng.chance(1, 3) { Some(rng.below(64) as u32) } else { None };
+                let dp = if panic_at.is_none() && f.drop_panic && rng.chance(1, 3) { Some(rng.below(64) as u32) } else { None };
+                Op::CloneFromX { n: rng.below(4) as u8, a, panic_at, dp }
+            }
+        }
         OPK_BULK_DESTROY => Op::BulkDestroy { a, stride: 1 + rng.below(9) as u32, phase: rng.below(9) as u32 },
         _ => Op::AuditAll,
     }
